@@ -4,14 +4,38 @@ TRANSLATORS = []
 HARNESS = 'harness/c20.py'
 TRUSTED_BASE = [
     'Lean 4.33 kernel; axioms propext, Classical.choice, Quot.sound only (audited per theorem each run)',
-    'hand-written model lean/PysphVerif/Model/Needs.lean, tied to the code by differential execution (harness/c20.py)',
+    'hand-written model lean/PysphVerif/Model/Needs.lean (checker, AccelerationEval flattening, stepper checks, pointer set-up of the generated code, precomputed closure), tied to the code by differential execution on every run (harness/c20.py)',
+    'the precomputed-symbol table is a parameter of every theorem; the harness feeds the model the real table (cb.symbols of Group.pre_comp) and synthetic acyclic ones',
+    'the specification of "needs" is the inductive reachability relation Reach in Lemmas/Needs.lean (not the code\'s closure loop)',
+    'method signatures are what inspect.getfullargspec reports (the harness passes them to the model; the oracle reads code objects instead)',
 ]
 ASSUMPTIONS = [
-    'CPU (cython) backend; groups nested at most two levels (what the code generator supports)',
+    'CPU (cython) backend; the GPU helpers are not covered',
+    'groups nested at most two levels (group -> sub-groups -> equations), which is all the code generator supports',
+    'the precomputed-symbol table is acyclic when the real code is run (sort_precomputed does not terminate otherwise); the theorems need no such assumption',
+    'what generated code reads = the `x = dst.<p>.data` / `x = src.<p>.data` lines of get_dest_array_setup / get_src_array_setup / get_array_setup; string-valued Group(start_idx=, stop_idx=) and Python-level reduce/py_initialize accesses are outside the statement',
 ]
-READY = False
+READY = True
 DESIGN_REF = '6/C20'
 TECHNIQUE = 'Lean 4 proof over a hand-written model + correspondence check'
-LEVEL_TEXT = 'in progress'
-LEVEL_NOTE = 'in progress'
+LEVEL_TEXT = ("Lean 4 theorems over every precomputed-symbol table, every list of particle arrays, every program "
+              "(groups, sub-groups, repeated equations) and every set of steppers: precomputed_is_reachable_set "
+              "(the closure loop computes exactly the reachable symbols), check_complete / incomplete_is_rejected, "
+              "generated_reads_exist (every array pointer the generated compute() takes exists), "
+              "error_names_equation_and_missing, rejection_is_justified (only the strict-subset quirk rejects a complete problem), "
+              "needs_are_read (the check demands nothing the generated code does not use), "
+              "stepper_check_complete, stepper_reads_exist, stepper_error_names, "
+              "no_incomplete_problem_reaches_execution, plus the F10 counterexample for the checker of the pinned tree "
+              "(orig_check_incomplete, orig_check_complete_partial, repair_is_conservative). The model is tied to the code "
+              "on every run by differential execution against the scratch build (every shipped Equation and "
+              "IntegratorStep class x removal of an explicitly / implicitly needed name x misspelt names, generated "
+              "equations, steppers through SPHCompiler._get_code()), and the property's own predicate is evaluated on "
+              "the implementation to produce replays.")
+LEVEL_NOTE = ("Trusted: Lean kernel, axioms propext/Classical.choice/Quot.sound; the hand-written model (checked by the "
+              "correspondence, ~2450 cases quick incl. all 288 shipped equation and 36 stepper classes; thorough removes every needed name of every shipped class); getfullargspec "
+              "as the reader of signatures. Not covered: GPU helpers, string start_idx/stop_idx of a Group, groups nested "
+              "deeper than two levels (AccelerationEval raises AttributeError there), the strict-subset false rejection "
+              "(an array holding exactly the needed names) which is outside the statement but modelled. The "
+              "signature-table `decide` of DESIGN section 6 is subsumed by the universally quantified theorems and was "
+              "replaced by exercising every shipped class in the tie.")
 TIMEOUT = {'quick': 1500, 'thorough': 3 * 3600}
